@@ -157,7 +157,13 @@ def make_source(spec):
     if k == "tuple":
         return tuple(spec["vals"])
     if k == "options":
-        return copy.deepcopy(spec["vals"])
+        v = copy.deepcopy(spec["vals"])
+        if spec.get("amg_levels"):
+            # the pyamg interface for per-level settings: lists (one entry per level) of names or (name, options) tuples
+            v["amg_options"].update({"strength": [("symmetric", {"theta": 0.0}), ("symmetric", {"theta": 0.1})],
+                                     "improve_candidates": [("block_gauss_seidel", {"sweep": "symmetric", "iterations": 2}), None],
+                                     "max_levels": 6})
+        return v
     raise HarnessError(f"unknown source kind {k}")
 
 
@@ -631,6 +637,8 @@ class C17Engine(Engine):
         sources["w1opts"] = {"kind": "options", "vals": {"num_iter": 2, "linear_solver": ls, "formulation": "pressure",
                                                          "amg_options": {"max_coarse": 2},
                                                          "aa_depth": cfg.choice([0, 1])}}
+        if ls != "direct" and cfg.random() < 0.5:
+            sources["w1opts"]["amg_levels"] = True
         if cfg.random() < 0.25:
             for sp in sources.values():
                 if sp["kind"] == "image":
@@ -678,7 +686,7 @@ class C17Engine(Engine):
                                and d["series"] == desc[a]["series"] and d["dim"] == desc[a]["dim"])
                 op = {"op": which, "a": a, "b": b, "out": out}
             else:
-                op = {"op": which, "a": a, "b": r.choice([2.5, 0.5, 3, 2, -1, 1.0]), "out": out}
+                op = {"op": which, "a": a, "b": r.choice([2.5, 0.5, 3, 2, -1, 1.0, 300, 1e40]), "out": out}
             desc[out] = dict(desc[a])
             return op
         if kind == "cmp":
@@ -779,8 +787,6 @@ class C17Engine(Engine):
             if a is None:
                 return None
             w = r.choice([2.0, 3, "wimg", "wimg", self._pick(r, desc, fam)])
-            if desc[a]["dtype"] in ("uint8", "uint16", "bool") and not isinstance(w, int):
-                w = 2
             desc[out] = dict(desc[a])
             return {"op": "weight", "a": a, "w": w, "out": out}
         if kind in ("superpose", "stack"):
@@ -1069,8 +1075,7 @@ class C17Engine(Engine):
                     try:
                         exp = numpy_expectation(pool, op)
                         got = res.img
-                        if not (got.shape == exp.shape and np.array_equal(got, exp, equal_nan=True)
-                                and (form not in ("add", "sub", "mul", "rmul") or got.dtype == exp.dtype or True)):
+                        if not (got.shape == exp.shape and np.array_equal(got, exp, equal_nan=True) and got.dtype == exp.dtype):
                             out.violate("C17.E", f"{form}:differs-from-numpy", step, op=op, got=_summ(got), expected=_summ(exp))
                         else:
                             out.counters["probe:arithmetic-checked"] += 1
@@ -1083,20 +1088,9 @@ class C17Engine(Engine):
 
     @staticmethod
     def _in_E_domain(pool, op):
-        a = pool[op["a"]]
-        b = op["b"]
-        if isinstance(b, str):
-            return True
-        if op["op"] in ("mul", "rmul"):
-            # scaling keeps the image's dtype; combinations for which numpy itself changes the dtype of the raw
-            # array (float scalar x integer image, negative int x unsigned image, anything x bool) are outside
-            if a.img.dtype.kind == "b":
-                return False
-            try:
-                if (a.img.ravel()[:1] * b).dtype != a.img.dtype:
-                    return False
-            except Exception:
-                return False
+        """Every image x documented scalar (int, float) combination: the statement makes no exception (a first version
+        excluded the combinations for which numpy changes the dtype; two independent reviewers read the statement
+        literally, DESIGN 8.9)."""
         return True
 
     @staticmethod
